@@ -16,7 +16,7 @@ EXPLANATION = (
     "the second ends at T + (vertex of the first): no step of optimize() may depend on absolute coordinates. SE(3) odometry involves four unit-quaternion constraints and is discharged by "
     "the reduction-certificate route (z3-checked local lemmas) when neither z3 version decides it directly."
 )
-BOUNDS = "8 edge kinds, T and all poses/measurements/offsets symbolic; one inductive step"
+BOUNDS = "8 edge kinds, T and all poses/measurements/offsets symbolic; one inductive step; commute cases: 3-vertex graphs, 1..2 iterations, harness edges for all four pose types and the real edge classes for R^2/R^3 translations (optionally with vertices sharing one buffer)"
 OUTSIDE = "rounding (the two runs differ at rounding level in floating point); T is applied to all vertices"
 ASSUMPTIONS = ["unit quaternions", "cos/sin addition formulas", "sqrt contract", "assembly/solve depend on the vertices only through e, J and boxplus (C03)"]
 
